@@ -70,7 +70,15 @@ def make_files(d: Path) -> dict:
           "badfile": [str(d / "K2bad.krome"), "krome"], "allowed": ["C", "H", "CH", "H2", "C2"], "krome": True}
     C = {"kw": {}, "files": [[str(data / "minimal.kida"), "kida"], [str(data / "minimal.umist"), "umist"]],
          "badfile": [str(d / "Bbad.naunet"), "naunet"], "allowed": ["C", "CH", "H", "C2"], "krome": False}
-    return {"custom": {"1": A, "2": B}, "mixed": {"1": A, "2": K2}, "mixedC": {"1": B, "2": C}, "none": {"1": K1, "2": K2}, "grain": {"1": G, "2": C}}
+    # elements given, NO pseudo-element list (as the shipped `minimal` example has it)
+    (d / "E.naunet").write_text("\n".join([native_line(1, ["H", "H"], ["H2"]), native_line(2, ["He+", "e-"], ["He"]), native_line(3, ["H2", "He+"], ["H", "H+", "He"])]))
+    (d / "E2.naunet").write_text("\n".join([native_line(4, ["He++", "e-"], ["He+"]), native_line(5, ["He+", "He+"], ["He++", "He"])]))
+    E1 = {"kw": {"elements": ["e", "H", "He"]}, "files": [[str(d / "E.naunet"), "naunet"], [str(d / "E2.naunet"), "naunet"]], "badfile": [str(d / "Bbad.naunet"), "naunet"],
+          "allowed": ["H", "H2", "He", "He+", "e-", "H+"], "krome": False}
+    B2 = {"kw": {"elements": ["e", "H", "D"], "pseudo_elements": ["Photon", "CR"]},
+          "files": [[str(d / "B3.naunet"), "naunet"]], "badfile": [str(d / "Bbad.naunet"), "naunet"], "allowed": ["H", "D", "HD", "H2"], "krome": False}
+    (d / "B3.naunet").write_text("\n".join([native_line(1, ["D", "H2"], ["HD", "H"]), native_line(2, ["H", "Photon"], ["H+", "e-"], ty=102)]))
+    return {"elemonly": {"1": E1, "2": B2}, "custom": {"1": A, "2": B}, "mixed": {"1": A, "2": K2}, "mixedC": {"1": B, "2": C}, "none": {"1": K1, "2": K2}, "grain": {"1": G, "2": C}}
 
 
 def concrete(last: list, nets: dict):
@@ -91,7 +99,9 @@ def concrete(last: list, nets: dict):
             what = "file"
         else:
             what = "allowed" if krome else "allowed0"
-        is_krome = d["krome"] and what in ("file", "badfile")
+        if len(last) > 4:
+            what = last[4]           # "line": the next file's first data line through add_reaction((line, format))
+        is_krome = d["krome"] and what in ("file", "badfile", "line")
         return ["Parse", n, what], {"op": "Parse", "n": n, "krome": is_krome, "aborts": what == "badfile"}
     raise MachineryError(f"unknown action {last}")
 
@@ -131,7 +141,7 @@ def main(ctx: Ctx) -> int:
     cov["states"], cov["transitions"] = states, trans
 
     files = make_files(ctx.sub("files"))
-    families = [("custom", "MC_Globals_custom.cfg"), ("mixed", "MC_Globals_mixed_full.cfg"), ("mixedC", "MC_Globals_mixed_full.cfg"),
+    families = [("elemonly", "MC_Globals_custom.cfg"), ("custom", "MC_Globals_custom.cfg"), ("mixed", "MC_Globals_mixed_full.cfg"), ("mixedC", "MC_Globals_mixed_full.cfg"),
                 ("none", "MC_Globals_none.cfg"), ("grain", "MC_Globals_none.cfg")]
     scenarios = []
     nsim = 10 if ctx.quick else 120
@@ -168,6 +178,13 @@ def main(ctx: Ctx) -> int:
                                 ["Edit", 1, "shield"], ["Render", 2], ["Render", 1]]))
         scenarios.append((fam, [["New", 2], ["New", 1], ["Parse", 1, files[fam]["1"]["krome"], False], ["Edit", 1, "shield"],
                                 ["Parse", 2, files[fam]["2"]["krome"], False], ["Render", 2]]))
+        # the network is only LOOKED at between two renderings (written to a file, searched for repeats, printed): same sources
+        scenarios.append((fam, [["New", 1], ["Parse", 1, files[fam]["1"]["krome"], False], ["Render", 1], ["Edit", 1, "inspect"], ["Render", 1]]))
+        scenarios.append((fam, [["New", 1], ["Parse", 1, files[fam]["1"]["krome"], False], ["Edit", 1, "inspect"], ["Render", 1]]))
+        # one more reaction given as a (line, format) pair to network 1 after network 2 was built
+        if not files[fam]["1"]["krome"]:     # (a KROME line cannot travel without its @format line)
+            scenarios.append((fam, [["New", 1], ["Parse", 1, files[fam]["1"]["krome"], False], ["New", 2], ["Parse", 2, files[fam]["2"]["krome"], False],
+                                    ["Parse", 1, files[fam]["1"]["krome"], False, "line"], ["Render", 1]]))
     cov["spec_behaviours_replayed"] = len(scenarios)
 
     jobs = []
@@ -184,7 +201,7 @@ def main(ctx: Ctx) -> int:
 
     def reference(fam, nets, ops, upto, n):
         """fresh-process render of network n's own description = projection of its mutating ops before position upto"""
-        proj = [o for o in ops[:upto] if o[1] == n and o[0] != "Render"] + [["Render", n]]
+        proj = [o for o in ops[:upto] if o[1] == n and o[0] != "Render" and not (o[0] == "Edit" and len(o) > 2 and o[2] == "inspect")] + [["Render", n]]
         key = (fam, json.dumps(proj))
         if key not in refcache:
             hs = []
@@ -214,7 +231,7 @@ def main(ctx: Ctx) -> int:
     cov["fresh_process_references"] = len(refcache)
     # which Custom assignment each family's trace spec needs
     rejected_total = 0
-    for famset, custom in ((("custom",), "AllCustom"), (("mixed", "mixedC"), "Mixed"), (("none", "grain"), "NoneCustom")):
+    for famset, custom in ((("custom", "elemonly"), "AllCustom"), (("mixed", "mixedC"), "Mixed"), (("none", "grain"), "NoneCustom")):
         part = [t for t in traces if t["fam"] in famset]
         if not part:
             continue
